@@ -58,6 +58,10 @@ def clifford_ops(draw, n, max_len=60, allow_macros=True):
     """gate list over the documented vocabulary {id,x,y,z,h,s,sdg,cx,cz,swap} with redundant patterns drawn as macros"""
     ops = []
     length = draw(st.integers(0, max_len))
+    if allow_macros and draw(st.integers(0, 5)) == 0:
+        # a leading Pauli layer as repeated sign corrections composed in front of a circuit leave it: mostly X, qubits may repeat
+        for _ in range(draw(st.integers(1, n + 2))):
+            ops.append([draw(st.sampled_from(["x", "x", "x", "z", "y"])), [draw(st.integers(0, n - 1))]])
     style = draw(st.sampled_from(["mixed", "mostly-local", "entangling"]))
     p2 = {"mixed": 3, "mostly-local": 1, "entangling": 6}[style]
     while len(ops) < length:
